@@ -239,6 +239,8 @@ class Sym:
         self.opaque = opaque
         self.inline_depth = inline_depth
         self.loops = {}       # id(loop node) -> dict(node, entry, paths)
+        self._reserved = {}
+        self._next_loop = 0
         self.loop_order = []
         self.npaths = 0
         self.krates = krates
@@ -877,7 +879,14 @@ class Sym:
         key = id(n)
         roots = self.assigned_roots(n["body"])
         entry = st.copy()
-        idx = self.loops[key]["index"] if key in self.loops else len(self.loop_order)
+        if key in self.loops:
+            idx = self.loops[key]["index"]
+        elif key in self._reserved:
+            idx = self._reserved[key]
+        else:
+            idx = self._next_loop
+            self._next_loop += 1
+            self._reserved[key] = idx
         for vid, name in roots.items():
             if vid in entry.env or True:
                 entry.env[vid] = ("loop", name, idx)
